@@ -70,9 +70,11 @@ let rec ty_of (x : sexp) : ty =
   | L (A "enum" :: rows) -> TEnum (erows_of rows)
   | L [A "tvar"; A n] -> TVar (nat_of_int (int_of_string n))
   | L [A "forall"; t] -> TForall (ty_of t)
+  | L [A "forallr"; t] -> TForallR (ty_of t)
   | _ -> failwith "bad type"
 and rows_of = function
   | [] -> RNil
+  | [L [A "rvar"; A n]] -> RVar (nat_of_int (int_of_string n))
   | L [f; t] :: r -> RCons (str f, ty_of t, rows_of r)
   | _ -> failwith "bad rows"
 and erows_of = function
@@ -163,15 +165,22 @@ let show_err = function
   | EIncomparable -> "Incomparable"
   | EUnmodelled -> "Unmodelled"
 
+let targ_of = function
+  | L [A "ity"; t] -> ITy (ty_of t)
+  | L (A "irow" :: rs) -> IRow (rows_of rs)
+  | _ -> failwith "bad instantiation argument"
+
+let kind_of = function A "r" -> true | A "t" -> false | _ -> failwith "bad quantifier kind"
+
 let rec atm_of (x : sexp) : atm =
   match x with
-  | L [A "avar"; v; L insts] -> AVar (str v, List.map ty_of insts)
+  | L [A "avar"; v; L insts] -> AVar (str v, List.map targ_of insts)
   | L [A "anum"; A p; A q] -> ANum { qnum = z_of_int (int_of_string p); qden = pos_of_int (int_of_string q) }
   | L [A "astr"; s] -> AStr (str s)
   | L [A "abool"; A b] -> ABool (b = "true")
   | L [A "alam"; v; t; b] -> ALam (str v, ty_of t, atm_of b)
   | L [A "aapp"; f; a] -> AApp (atm_of f, atm_of a)
-  | L [A "alet"; v; A k; e; b] -> ALet (str v, nat_of_int (int_of_string k), atm_of e, atm_of b)
+  | L [A "alet"; v; L ks; e; b] -> ALet (str v, List.map kind_of ks, atm_of e, atm_of b)
   | L [A "aif"; c; t; e] -> AIf (atm_of c, atm_of t, atm_of e)
   | L [A "aarr"; t; L es] -> AArr (ty_of t, List.map atm_of es)
   | L (A "arec" :: fs) -> ARec (List.map (function L [f; e] -> (str f, atm_of e) | _ -> failwith "bad field") fs)
@@ -180,7 +189,7 @@ let rec atm_of (x : sexp) : atm =
   | L [A "avariant"; t; e; L rows] -> AVariant (str t, atm_of e, erows_of rows)
   | L [A "amatch"; e; t; L bs] -> AMatch (atm_of e, ty_of t, List.map abranch_of bs, None)
   | L [A "amatch"; e; t; L bs; d] -> AMatch (atm_of e, ty_of t, List.map abranch_of bs, Some (atm_of d))
-  | L [A "aprim"; A o; L insts] -> APrim (prim_of o, List.map ty_of insts)
+  | L [A "aprim"; A o; L insts] -> APrim (prim_of o, List.map targ_of insts)
   | L [A "aannt"; e; t] -> AAnnT (atm_of e, ty_of t)
   | L [A "auntyped"; u] -> AUntyped (tm_of u)
   | L [A "acast"; e; t] -> ACast (atm_of e, ty_of t)
